@@ -1,18 +1,18 @@
 SPECIFICATION MCSpec
 CONSTANTS Design = "copy"
           StopPolicy = "drain"
+          Creation = "defaults"
           Modes = {"queue"}
           NRec = 3
-          Sizes = {1, 60, 200}
+          Sizes = {1, 6, 20}
           Times = {1, 7}
-          MaxBufs = {0, 100}
+          MaxBufs = {0, 10}
           MaxWaits = {5}
-          ZipMins = {0, 100}
+          ZipMins = {0, 10}
           QCaps = {2}
           Keeps = {TRUE}
-          Gates = {FALSE, TRUE}
           MaxDirect = 0
-          Reconfig = FALSE
+          Reconfig = 0
           EarlyFlush = FALSE
           WithDefaults = TRUE
 INVARIANTS ExactlyOnceInOrder CountMatches Decodable ZipIff DefaultsInForce HandedOverIsImmutable
